@@ -2,6 +2,8 @@
 // (no adjustment in between: what is exported is exactly what the parser stored).
 //
 //   obs <hex of a complete gkf document> <model operands…>   -> ok <hex of the exported document> | throw <kind> <hex text>
+//   net <hex of a complete gkf document> <model operands…>   -> the same after LocalNetwork::remove_inconsistency(),
+//                                                                 which gama-local calls after reading its input
 //
 // The model operands (cluster station and the attribute lists) are for the Lean driver; the harness parses the document.
 #include "proto.h"
@@ -28,12 +30,13 @@ int main() {
     if (is_case) continue;
     auto t = vp::tokens(line);
     if (t.empty()) continue;
-    if ((t[0] == "obs" || t[0] == "dh") && t.size() >= 2) {
+    if ((t[0] == "obs" || t[0] == "dh" || t[0] == "net") && t.size() >= 2) {
       const std::string doc = unhexs(t[1]);
       try {
         GNU_gama::local::LocalNetwork lnet;
         GNU_gama::local::GKFparser gkf(lnet);
         gkf.xml_parse(doc.c_str(), int(doc.size()), 1);
+        if (t[0] == "net") lnet.remove_inconsistency();
         std::cout << "ok " << hexs(lnet.export_xml()) << "\n";
       } catch (const GNU_gama::local::ParserException& e) {
         std::cout << "throw Parser " << hexs(e.what()) << "\n";
